@@ -238,8 +238,10 @@ def obligations(tier, seed):
     # token-level oddities (concrete structure; one dummy symbolic so that the engine still explores): alone, in context, at end of file
     for t in TOKENS:
         add("tok", t + "\n")
-        add("tok-ctx", CONTEXT_NOSELF + t + TAIL)
-        add("tok-eof", "nop\n" + t)
+        if tier == "thorough" or rnd.random() < 0.4:
+            add("tok-ctx", CONTEXT_NOSELF + t + TAIL)
+        if tier == "thorough" or rnd.random() < 0.4:
+            add("tok-eof", "nop\n" + t)
     add("huge", ".word 1 << 20000.\n")
     add("huge", "X9 = 1 _ \"ab\"\n.byte X9\n")
     for i, c in enumerate(CYCLES):
